@@ -279,6 +279,48 @@ int main(int argc, char **argv)
 				v_nontrivial(v_mix(ii + 5000, len));
 			}
 		}
+		/* (g) special coefficient matrices (all 0, all 1, identity pattern, all 2, one value per row, only the last column) x k in {1,4,10} */
+		for (int kind = 0; kind < 6; kind++)
+			for (int ki = 0; ki < 3; ki++) {
+				if (!v_mine(unit++))
+					continue;
+				if (v_deadline_hit() || nfail > 60)
+					goto out;
+				static const int ks[] = { 1, 4, 10 }, ls[] = { -1, 64, 100, 300 };
+				EC_K = ks[ki];
+				ref_k = -1;
+				make_ref(ks[ki], w, 1000 + kind, 320);
+				for (int li = 0; li < 4; li++) {
+					int len = ls[li] < 0 ? im->minlen : ls[li];
+					if (len < im->minlen)
+						continue;
+					char sw[64];
+					snprintf(sw, sizeof sw, "g:coefficients=%s", ec_special_name[kind]);
+					run_case(im, len, ks[ki], w, -1, -1, 1, sw);
+				}
+				ref_k = -1;
+				EC_K = 1;
+				v_nontrivial(v_mix(ii + 6000, kind * 8 + ki));
+			}
+		/* (h) the high-level entries at the SMALLEST shapes (k, rows) in {(1,1), (1,2), (2,1), (1,6)} x EVERY length, end-flush and page-start
+		 * placement (both give 16- and 32-byte aligned blocks at the matching lengths): shortcuts for degenerate shapes */
+		if (!im->width) {
+			static const int shp[4][2] = { { 1, 1 }, { 1, 2 }, { 2, 1 }, { 1, 6 } };
+			for (int si = 0; si < 4; si++) {
+				if (!v_mine(unit++))
+					continue;
+				if (v_deadline_hit() || nfail > 60)
+					goto out;
+				ref_k = -1;
+				make_ref(shp[si][0], shp[si][1], 70 + si, NMAX);
+				ref_k = -1; /* coefficient layout depends on rows: never reuse */
+				for (int len = im->minlen; len <= N; len++) {
+					run_case(im, len, shp[si][0], shp[si][1], -1, -1, 1, "h:smallest-shapes E/E");
+					run_case(im, len, shp[si][0], shp[si][1], 0, 0, 0, "h:smallest-shapes S/S");
+				}
+				v_nontrivial(v_mix(ii + 7000, si));
+			}
+		}
 		/* (e) long blocks */
 		{
 			static const int bigl[] = { 65536 + 17, (1 << 20) + 33, 1 << 20, (1 << 20) + 64, (1 << 24) + 65 };
